@@ -5,7 +5,10 @@ SPEC = {
     "correspondences": [
         {"dialect": "flush", "quick_n": 6000, "thorough_n": 200000, "judge": "judge-c02-flush"},
     ],
-    "oracles": [],
+    "oracles": [
+        {"name": "hist", "quick_args": ["-props", "C02", "-n", "25", "-steps", "40"],
+         "thorough_args": ["-props", "C02", "-n", "400", "-steps", "70", "-profile", "hold,samebox"], "timeout": 3000},
+    ],
     "trusted_base": [
         "Lean 4.33.0 kernel; axioms limited to propext, Classical.choice, Quot.sound (audited per theorem)",
         "hand-written model GluonModel/Model/{Flags,Snap,Resp,Responder}.lean of responder.handle / popResponders / State.flushResponses, tied by the `flush` correspondence dialect (differential testing, not proof)",
